@@ -146,13 +146,15 @@ def finding_key(req, obs, detail):
 
 SPEC = {
     "id": "C04",
-    "gens": ["SlotTables", "FixpointTables", "RankTable", "TypingTables", "HlslGenTables"] + LEG_GENS,
+    "gens": ["SlotTables", "FixpointTables", "RankTable", "TypingTables", "HlslGenTables", "HlslIntrinsicTables"] + LEG_GENS,
     "lean_modules": ["RsslVerif.Thm.C04"] + LEG_MODULES,
     "theorems": [T + n for n in [
         "slots_stable", "run_explicit", "step_explicit",
         "reread_table_agrees", "cast_drop_agrees", "reread_only_int32",
         "reelab_no_new_casts", "reelab_stmt_no_new_casts", "export_is_source", "unelab_is_export", "renamed_exists",
-        "reelab_idempotent", "reelab_fails_out_argument"]] + LEG_THEOREMS,
+        "reelab_idempotent", "reelab_fails_out_argument",
+        "bridge_square", "skeleton_and_constants", "parsesBack_of_c09", "fixpoint_expr", "fixpoint_expr_text",
+        "namesAgreeEx", "idxInjEx"]] + LEG_THEOREMS,
     "harness": "c04",
     "custom": custom,
     "nontrivial": nontrivial,
